@@ -4,25 +4,31 @@
 //! harness-controlled list (`feed`), so that ktio's own numbering / copy-out /
 //! statistics code can be executed; no FASTA/FASTQ parsing is modelled.
 pub mod io {
-    use std::cell::RefCell;
-
     #[derive(Clone, Debug, Default)]
     pub struct RawRecord {
         pub id: String,
         pub seq: Vec<u8>,
     }
 
-    thread_local! {
-        static FEED: RefCell<Vec<RawRecord>> = RefCell::new(Vec::new());
-    }
+    // single-threaded by construction (Kani harnesses have one thread)
+    static mut FEED: Option<Vec<RawRecord>> = None;
 
     /// Harness side: the records every subsequently created reader will yield.
+    #[allow(static_mut_refs)]
     pub fn feed(recs: Vec<RawRecord>) {
-        FEED.with(|f| *f.borrow_mut() = recs);
+        unsafe {
+            FEED = Some(recs);
+        }
     }
 
+    #[allow(static_mut_refs)]
     fn snapshot() -> Vec<RawRecord> {
-        FEED.with(|f| f.borrow().clone())
+        unsafe {
+            match &FEED {
+                Some(v) => v.clone(),
+                None => Vec::new(),
+            }
+        }
     }
 
     macro_rules! reader_mod {
